@@ -318,6 +318,26 @@ def r3_3(ctx: Ctx) -> None:
                 loops.append((node, node.args[0], []))
         for node, it, body in loops:
             elem = _set_typed(ix, fn, it, ld)
+            if elem is None and isinstance(it, ast.Name) and len(ld.defs.get(it.id, [])) > 1:
+                # a name bound on several paths (`xs = explode(...)` / `if show: xs = sorted(xs)`): does a set-typed binding reach
+                # the loop on a path that passes no other binding?
+                g_ = CFG(fn.node)
+                def_nodes = {id(st): next((x for x in g_.nodes if x.ast is st), None) for _, _, st in ld.defs[it.id]}
+                use = next((x for x in g_.nodes if x.kind in ("for", "stmt", "cond") and any(y is node for y in ast.walk(
+                    x.ast if x.kind != "cond" else (x.expr_root() or ast.Pass())))), None)
+                if use is None and isinstance(node, ast.For):
+                    use = next((x for x in g_.nodes if x.kind == "for" and x.ast is node), None)
+                for v, idx, st in ld.defs[it.id]:
+                    dn = def_nodes.get(id(st))
+                    if v is None or idx is not None or dn is None or use is None:
+                        continue
+                    t_ = _set_typed(ix, fn, v, LocalDefs(ast.parse("def _f(): pass").body[0]))
+                    if t_ is None:
+                        continue
+                    others = {x.id for k, x in def_nodes.items() if x is not None and x is not dn}
+                    if g_.path_avoiding([use], lambda e: False, start=dn, blocked_nodes=others - {use.id}) is not None:
+                        elem = t_
+                        break
             if elem is None:
                 continue
             n += 1
